@@ -175,6 +175,22 @@ impl Deserializable for Context {
         // read total number of constraints
         let num_constraints = source.read_usize()?;
 
+        // make sure the values satisfy the requirements checked by the constructor
+        if trace_info.length() > u32::MAX as usize
+            || trace_info.length() * options.blowup_factor() > u32::MAX as usize
+        {
+            return Err(DeserializationError::InvalidValue(
+                "LDE domain size is too big".to_string(),
+            ));
+        }
+        if num_constraints == 0 || num_constraints > u32::MAX as usize {
+            return Err(DeserializationError::InvalidValue(format!(
+                "number of constraints must be between 1 and {}, but was {}",
+                u32::MAX,
+                num_constraints
+            )));
+        }
+
         Ok(Context {
             trace_info,
             field_modulus_bytes,
